@@ -41,6 +41,10 @@ pub fn in_range(chain: &[MBlock], s: u64, e: u64) -> Vec<MBlock> {
 
 pub fn expect_success(r: &RunResult) -> Vec<Mismatch> {
     let mut v = vec![];
+    if r.stderr.contains("VERIF-TIMEOUT") || r.stderr.starts_with("SPAWN-ERROR") {
+        v.push(mm("machinery-timeout", r.stderr.lines().last().unwrap_or("").to_string()));
+        return v;
+    }
     if r.code != Some(0) {
         let sig = if r.panicked() { "run-panicked" } else { "run-failed" };
         v.push(mm(sig, format!("exit {:?} signal {:?} stderr: {}", r.code, r.signal, r.stderr.lines().take(6).collect::<Vec<_>>().join(" | "))));
